@@ -7,7 +7,7 @@ import struct
 import z3
 
 from . import api
-from .values import (F64, LazyStr, Opaque, PathAbort, Sym, SymBool, SymBV, SymBytes, SymFloat, SymInt, SymStr,
+from .values import (SymDT, SymTD, F64, LazyStr, Opaque, PathAbort, Sym, SymBool, SymBV, SymBytes, SymFloat, SymInt, SymStr,
                      Unsupported, as_bytes_list, chars, deep_sym, is_sym, mkbool, mkbv, mkbytes, mkint, mkstr, zbool,
                      zint)
 
@@ -32,6 +32,12 @@ def m_isinstance(eng, x, t):
             return t in ((bytearray,) if x.mutable else (bytes,)) or t is object
         if isinstance(x, Opaque):
             return t is object
+        if isinstance(x, SymDT):
+            import datetime
+            return t in (datetime.datetime, datetime.date, object)
+        if isinstance(x, SymTD):
+            import datetime
+            return t in (datetime.timedelta, object)
         return isinstance(x, t)
     if isinstance(t, tuple):
         return any(one(k) for k in t)
@@ -51,6 +57,12 @@ def m_type(eng, x, *rest):
         return str
     if isinstance(x, SymBytes):
         return bytearray if x.mutable else bytes
+    if isinstance(x, SymDT):
+        import datetime
+        return datetime.datetime
+    if isinstance(x, SymTD):
+        import datetime
+        return datetime.timedelta
     return type(x)
 
 
@@ -535,7 +547,12 @@ def m_unpack(eng, fmt, buf):
             continue
         bv = z3.Concat(*[_byte_term(b) for b in reversed(part)]) if n > 1 else _byte_term(part[0])
         if ch == "d":
-            out.append(SymFloat(z3.fpBVToFP(bv, F64)))
+            sbv = z3.simplify(bv)
+            orig = eng.fp_origin.get(sbv.get_id())
+            if orig is not None:
+                out.append(orig)        # unpack(pack(x)) peephole: same float, tags kept
+            else:
+                out.append(SymFloat(z3.fpBVToFP(bv, F64)))
         elif ch == "f":
             out.append(SymFloat(z3.fpFPToFP(z3.RNE(), z3.fpBVToFP(bv, z3.Float32()), F64)))
         else:
@@ -563,7 +580,29 @@ def m_pack(eng, fmt, *vals):
             if isinstance(v, SymFloat) and v.ival is not None:
                 # integral-valued float: keep tag through pack/unpack peephole
                 pass
-            bv = z3.fpToIEEEBV(eng.to_fp(v)) if is_sym(v) else z3.BitVecVal(struct.unpack("<Q", struct.pack("<d", v))[0], 64)
+            if is_sym(v):
+                fv_sym = v if isinstance(v, SymFloat) else eng.as_float(v)
+                if fv_sym.ival is not None and is_sym(fv_sym.ival):
+                    # integral-valued double: its 8 bytes are an uninterpreted word (same value -> same word);
+                    # unpack() of exactly these bytes gives the value back. Over-approximation: no other
+                    # relation between the value and its bytes is assumed.
+                    key = ("ival", fv_sym.ival.t.get_id())
+                    bv = eng.fp_pack_cache.get(key)
+                    if bv is None:
+                        bv = z3.BitVec("_f64_%d" % eng.fresh_id(), 64)
+                        eng.fp_pack_cache[key] = bv
+                        eng.fp_origin[bv.get_id()] = fv_sym
+                else:
+                    fv = eng.to_fp(fv_sym)
+                    key = ("fp", fv.get_id())
+                    bv = eng.fp_pack_cache.get(key)
+                    if bv is None:
+                        bv = z3.BitVec("_f64_%d" % eng.fresh_id(), 64)
+                        eng.fp_pack_cache[key] = bv
+                        eng.add_fact(z3.Or(z3.fpBVToFP(bv, F64) == fv, z3.And(z3.fpIsNaN(fv), z3.fpIsNaN(z3.fpBVToFP(bv, F64)))))
+                        eng.fp_origin[bv.get_id()] = fv_sym
+            else:
+                bv = z3.BitVecVal(struct.unpack("<Q", struct.pack("<d", v))[0], 64)
             for i in range(8):
                 out.append(mkbv(z3.Extract(8 * i + 7, 8 * i, bv), False))
             continue
@@ -752,8 +791,9 @@ def install(eng):
     })
     for name in ("log", "log10", "log2", "pow", "sqrt", "exp", "isnan", "isinf", "isfinite", "modf", "copysign", "fabs"):
         M[getattr(math, name)] = m_unmodelled(name)
-    from . import symre
+    from . import symre, dtmodels
     symre.install(eng)
+    dtmodels.install(eng)
     eng.fresh_id = lambda: _fresh(eng)
 
 
